@@ -1173,3 +1173,45 @@ func init() {
 		return p
 	}
 }
+
+func init() {
+	// The context given to Start is cancelled instead of calling Stop ("If the context is
+	// cancelled, the election will stop gracefully"): fault-free store, one to three instances;
+	// afterwards the record is removed or left to expire, the application validates its token,
+	// and the instance may be started again with a new context.
+	families["ctxcancel"] = func(r *Rng) *Plan {
+		p := &Plan{Judge: []string{"C02", "C03", "C04", "C08", "C05"}}
+		baseTiming(r, p, hLattice[:5])
+		n := 1 + r.Intn(3)
+		p.Insts = mkInsts(r, n, 1)
+		for i := range p.Insts {
+			p.Insts[i].V = Pick(r, []time.Duration{0, p.H, 2 * p.H})
+			p.Insts[i].DemoteDur = Pick(r, []time.Duration{0, 0, 10 * ms})
+			p.Actions = append(p.Actions, Action{At: time.Duration(i) * r.Dur(0, 2*p.H), Kind: AStart, Inst: i})
+		}
+		p.Store = healthyStore(r, Pick(r, []time.Duration{p.H / 2, p.H / 10}))
+		t := r.Dur(2*p.H, 8*p.H)
+		who := 0
+		if r.Bool(0.3) {
+			who = r.Intn(n)
+		}
+		p.Actions = append(p.Actions, Action{At: t, Kind: ACancelStart, Inst: who})
+		if r.Bool(0.5) {
+			// (C02 speaks of records that only the elections touch)
+			p.Judge = []string{"C03", "C04", "C08", "C05"}
+			p.NoJudge = []string{"C02"}
+			p.Actions = append(p.Actions, Action{At: t + r.Dur(0, 2*p.H), Kind: Pick(r, []string{AOutDelete, AExpire}), Key: "g1"})
+		}
+		for k := 0; k < r.Intn(3); k++ {
+			p.Actions = append(p.Actions, Action{At: t + r.Dur(0, p.TTL+2*p.H), Kind: Pick(r, []string{AValidateOD, AValidate}), Inst: who})
+		}
+		if r.Bool(0.4) {
+			p.Actions = append(p.Actions, Action{At: t + r.Dur(p.H, 2*p.TTL), Kind: AStart, Inst: who})
+		}
+		statusCalls(r, p)
+		p.Until = t + 3*p.TTL + 3*sec
+		p.Tail = 0
+		p.Sched = SchedCfg{YieldProb: Pick(r, []float64{0, 0.2, 0.5}), StallMax: Pick(r, []time.Duration{0, 0, p.H / 50})}
+		return p
+	}
+}
